@@ -42,8 +42,8 @@ CLAIM = dict(
           'polyroots / argsort / the linear algebra return; C15_func_points_dim: exactly d coordinates when the argsort over all '
           'candidates indexes into its argument and there is one squared interpolant per kept point; C15_func_constant_poly: a constant '
           'squared interpolant yields the candidates -1, 1 without consulting polyroots (commit 7bc82cb). '
-          'Validated numerically only: that the factor f_s of the rank-1 model is the Chebyshev interpolant of the orthogonalised core '
-          '(cheb2poly, computed by the harness; the polynomials (g f_s)^2 of the model are compared with those handed to '
+          'Validated numerically only: that the factor f_s of the rank-1 model is the Chebyshev interpolant of the coefficient core of the '
+          'ARGUMENT up to the scalar of orthogonalize (cheb2poly, computed by the harness from the original core; the polynomials (g f_s)^2 of the model are compared with those handed to '
           '_find_poly_max on every run), completeness of numpy polyroots, and the floating-point effects of orthogonalize / 2**(p/d) '
           '(oracles with contracts, checked on every recorded call).'),
     note=('Order arguments are at Coq reals (no NaN: the zero tensor, where numpy computes 0/0 norms, is covered by the theorems because '
@@ -271,6 +271,53 @@ def structured_func_tensors():
     out.append(('even|n1|even', [col(F_['even_peak0_neg']), col([2.0]), col(F_['even_peak0'])]))
     out.append(('tiny|ends|double', [col(F_['tiny_root']), col(F_['even_ends']), col(F_['double_root'])]))
     return out
+
+
+def aliased_tensors(rng):
+    """tensors with repeated cores (to be passed with form_alias): functional rank-1 coefficient tensors whose factor has two
+    opposite-signed extrema of similar size, and TT tensors of rank 1 and 2 (also power-of-two shapes for optima_qtt)"""
+    col = lambda v: np.array(v, dtype=float).reshape(1, -1, 1)
+    facs = [[0.35, -1.0, -1.0], [0.3, 1.0, -0.9], [-0.2, 0.8, 1.0, 0.1], [0.1, -0.9, 0.2, 0.7]]
+    func = []
+    for c in facs:
+        func += [[col(c)] * 2, [col(c)] * 3, [col([0.4, 0.3, -0.6]), col(c), col(c), col([1.0, -0.5])]]
+    G2 = np.array([rng.uniform(-1, 1) for _ in range(2 * 3 * 2)]).reshape(2, 3, 2)
+    A2 = np.array([rng.uniform(-1, 1) for _ in range(3 * 2)]).reshape(1, 3, 2)
+    B2 = np.array([rng.uniform(-1, 1) for _ in range(2 * 3)]).reshape(2, 3, 1)
+    Gq = np.array([rng.uniform(-1, 1) for _ in range(2 * 2 * 2)]).reshape(2, 2, 2)
+    Aq = np.array([rng.uniform(-1, 1) for _ in range(2 * 2)]).reshape(1, 2, 2)
+    Bq = np.array([rng.uniform(-1, 1) for _ in range(2 * 2)]).reshape(2, 2, 1)
+    tt = [[col([1, -2, 1.5])] * 3, [col([2, -1, 0.5, -2.5])] * 2, [A2, G2, G2, B2], [A2, G2, G2, G2, B2],
+          [col([1.5, -1, 2, -2.5])] * 2, [Aq, Gq, Gq, Bq]]
+    return func, tt
+
+
+def _oracle_alias(tn, Y, k, func=False):
+    """the same array object in several positions of the argument: every routine must return what it returns for independent
+    copies of the cores, and must leave the (shared) arrays unchanged"""
+    inp = dict(Y=[np.asarray(G).tolist() for G in Y], k=k, alias=True, func=func)
+    if func:
+        inp = dict(A=inp['Y'], k=k, alias=True, func=True)
+    lst = lambda r: [np.asarray(x).tolist() for x in r] if isinstance(r, tuple) else np.asarray(r).tolist()
+    routines = [('optima_func_tt_beam', lambda T: tn.optima_func_tt_beam(T, k)),
+                ('optima_func_tt_beam(ret_all)', lambda T: tn.optima_func_tt_beam(T, k, None, True))] if func else \
+               [('optima_tt_beam', lambda T: tn.optima_tt_beam(T, k)), ('optima_tt_beam(r2l)', lambda T: tn.optima_tt_beam(T, k, l2r=False)),
+                ('optima_tt_max', lambda T: tn.optima_tt_max(T, k)), ('optima_tt', lambda T: tn.optima_tt(T, k))]
+    ns = [np.asarray(G).shape[1] for G in Y]
+    if not func and len(set(ns)) == 1 and ns[0] in (2, 4):
+        routines.append(('optima_qtt', lambda T: tn.optima_qtt(T, k)))
+    obj = form_alias(Y)
+    try:
+        for name, f in routines:
+            got, ref = lst(_quiet(f, obj)), lst(_quiet(f, copy_tt(Y)))
+            if got != ref:
+                return dict(what='%s: an argument with the same array object in several positions gives a different result than '
+                                 'independent copies of the cores' % name, input=inp, got=got, expected=ref)
+    except Exception as e:  # noqa
+        return dict(what='optimum search raised on an argument with repeated core objects: ' + repr(e)[:160], input=inp)
+    if not _same_arg(obj, Y, form_alias):
+        return dict(what='the optimum search modified its argument (repeated core objects)', input=inp)
+    return None
 
 
 def zero_onesigned_tensors():
@@ -727,14 +774,14 @@ class RecFunc:
 
     def __init__(self, tn):
         import sys
-        self.M = sys.modules['teneva.optima_func']
+        self.G = tn.optima_func_tt_beam.__globals__     # the namespace this teneva instance really uses (survives re-imports)
         self.tn = tn
 
     def __enter__(self):
-        M = self.M
+        G_ = self.G
         self.steps, self.orth = [], []
         self._orth = self.tn.orthogonalize
-        self._step, self._fpm, self._roots, self._sort = M._step_top_k, M._find_poly_max, np.polynomial.polynomial.polyroots, np.argsort
+        self._step, self._fpm, self._roots, self._sort = G_['_step_top_k'], G_['_find_poly_max'], np.polynomial.polynomial.polyroots, np.argsort
         rec = self
 
         def orth(Y, *a, **kw):
@@ -767,7 +814,8 @@ class RecFunc:
             else:
                 st['sort2'], st['y'] = np.asarray(out).tolist(), [float(x) for x in np.asarray(a, dtype=float).ravel()]
             return out
-        M._step_top_k, M._find_poly_max, np.polynomial.polynomial.polyroots, np.argsort = step, fpm, roots, argsort
+        G_['_step_top_k'], G_['_find_poly_max'] = step, fpm
+        np.polynomial.polynomial.polyroots, np.argsort = roots, argsort
         self._w = warnings.catch_warnings()
         self._w.__enter__()
         warnings.simplefilter('ignore')
@@ -775,8 +823,9 @@ class RecFunc:
         return self
 
     def __exit__(self, *a):
-        M = self.M
-        M._step_top_k, M._find_poly_max, np.polynomial.polynomial.polyroots, np.argsort = self._step, self._fpm, self._roots, self._sort
+        G_ = self.G
+        G_['_step_top_k'], G_['_find_poly_max'] = self._step, self._fpm
+        np.polynomial.polynomial.polyroots, np.argsort = self._roots, self._sort
         self.tn.orthogonalize = self._orth
         np.seterr(**self._e)
         self._w.__exit__(*a)
@@ -873,27 +922,34 @@ def _func_r1_cases(tn, rng, thorough):
     for _ in range(24 if thorough else 7):
         shapes.append([rng.randint(1, 5) for _ in range(rng.randint(2, 4))])
     tensors = [([G.shape[1] for G in A], A) for _, A in structured_func_tensors()] + \
+              [([G.shape[1] for G in A], A) for A in aliased_tensors(rng)[0]] + \
               [(ns, rand_tt(rng, ns, [1] * (len(ns) + 1), 'float')) for ns in shapes]
     for ns, A in tensors:
         d = len(ns)
         for k, k_loc in ([(1, None), (3, None)] if len(items) < 2 * len(structured_func_tensors()) else [(1, None), (2, 1), (3, None), (5, 2)]):
             inp = dict(stream='R1', ns=ns, k=k, k_loc=k_loc, A=[G.tolist() for G in A], func=True)
             try:
-                Aobj = copy_tt(A)       # the same object is used a second time below
+                Aobj = form_alias(A)    # equal cores are ONE array object; the same list is used a second time below
                 with RecFunc(tn) as rec:
                     X = np.asarray(tn.optima_func_tt_beam(Aobj, k, k_loc, ret_all=True), dtype=float)
                     X2 = np.asarray(tn.optima_func_tt_beam(Aobj, k, k_loc, ret_all=True), dtype=float)
-                if X2.tolist() != X.tolist() or not _same_arg(Aobj, A, None):
+                if X2.tolist() != X.tolist() or not _same_arg(Aobj, A, form_alias):
                     raise RuntimeError('optima_func_tt_beam: second call on the same object differs / argument modified')
             except Exception as e:  # noqa
                 items.append(dict(coq='(([] : list (list nat)), ([] : list (list (Z * Z))))', broken='implementation raised ' + repr(e)[:200], input=inp))
                 continue
+            # the factor handed to the model comes from the ORIGINAL coefficient core: for rank 1 orthogonalize only rescales, so
+            # Z_s must be lam_s times (A_s with its first coefficient times sqrt 2) and f_s = lam_s * cheb2poly(A_s)
             Z = rec.orth[0]
-            fs = []
-            for G in Z:
-                c = np.array(G[0, :, 0], dtype=float)
-                c[0] /= 2 ** 0.5
-                fs.append([float(x) for x in np.polynomial.chebyshev.cheb2poly(c)])
+            fs, pre_bad = [], None
+            for Gz, Ga in zip(Z, A):
+                z, a0 = np.array(Gz[0, :, 0], dtype=float), np.array(Ga[0, :, 0], dtype=float)
+                bq = a0.copy()
+                bq[0] *= 2 ** 0.5
+                lam = float(z @ bq) / float(bq @ bq) if float(bq @ bq) > 0 else 0.0
+                if np.max(np.abs(z - lam * bq)) > 1e-9 * max(float(np.max(np.abs(z))), 1e-300):
+                    pre_bad = 'the orthogonalised core is not a multiple of the sqrt(2)-scaled coefficient core of the argument'
+                fs.append([float(x) for x in lam * np.polynomial.chebyshev.cheb2poly(a0)])
             steps = rec.steps[:d]
             rts = '[' + '; '.join('[' + '; '.join(Fl(c['roots'] or []) for c in st['cands']) + ']' for st in steps) + ']'
             s1 = '[' + '; '.join(NNl([c['sort1'] or [] for c in st['cands']]) for st in steps) + ']'
@@ -902,7 +958,7 @@ def _func_r1_cases(tn, rng, thorough):
                    f'let as1 := (fun s i (_ : list float) => nth i (nth s {s1} []) []) in '
                    f'let as2 := (fun s (_ : list float) => nth s {s2} []) in '
                    f'showR1 rts as1 as2 [{"; ".join(Fl(f) for f in fs)}] {k} {k if k_loc is None else k_loc})')
-            items.append(dict(coq=coq, X=X.tolist(), polys=[c['p'] for st in steps for c in st['cands']], input=inp))
+            items.append(dict(coq=coq, X=X.tolist(), polys=[c['p'] for st in steps for c in st['cands']], pre_bad=pre_bad, input=inp))
     return items
 
 
@@ -918,7 +974,9 @@ def _check_func_r1(R, name, items, distribution):
             cut = rows.index([]) if [] in rows else len(rows)
             Xm = [[C.float_of_show(p) for p in r] for r in rows[:cut]]
             tr = [[C.float_of_show(p) for p in r] for r in rows[cut + 1:]]
-            if Xm != it['X']:
+            if it.get('pre_bad'):
+                why = it['pre_bad']
+            elif Xm != it['X']:
                 why = 'returned points differ'
             elif len(tr) != len(it['polys']):
                 why = 'number of _find_poly_max calls differs'
@@ -972,7 +1030,21 @@ def kform_int32(k):
     return np.int32(k)
 
 
-FORMS = dict(form_tuple=form_tuple, form_int=form_int, form_fortran=form_fortran, form_float32=form_float32)
+def form_alias(T):
+    """cores that are equal arrays become ONE array object used in several positions of the list ([G]*d, [A, G, G, B])"""
+    out = []
+    for G in T:
+        G = np.array(G, dtype=float)
+        for H in out:
+            if H.shape == G.shape and np.array_equal(H, G):
+                out.append(H)
+                break
+        else:
+            out.append(G)
+    return out
+
+
+FORMS = dict(form_alias=form_alias, form_tuple=form_tuple, form_int=form_int, form_fortran=form_fortran, form_float32=form_float32)
 KFORMS = dict(kform_int64=kform_int64, kform_int32=kform_int32)
 
 
@@ -1434,6 +1506,24 @@ def search(R, ctx, deep, hints):
                     n_eval += 1
                     fam['qtt-lossy'] = fam.get('qtt-lossy', 0) + 1
                     push(_oracle_qtt(tn, Y, k, e=e, r=r, truncating=True))
+    # ALIASED arguments: the same array object in several positions ([G]*d, [A, G, G, B])
+    al_func, al_tt = aliased_tensors(rng)
+    for A in al_func:
+        for k, k_loc in [(1, None), (3, None), (5, 2)]:
+            n_eval += 1
+            fam['alias'] = fam.get('alias', 0) + 1
+            push(_oracle_func(tn, A, k, k_loc, form=form_alias))
+        push(_oracle_alias(tn, A, 3, func=True))
+    for Y in al_tt:
+        N = nelem(Y)
+        for k in (1, 2, N):
+            n_eval += 1
+            fam['alias'] = fam.get('alias', 0) + 1
+            push(_oracle_tt(tn, Y, k, form=form_alias))
+            push(_oracle_alias(tn, Y, k))
+        if len({G.shape[1] for G in Y}) == 1 and Y[0].shape[1] in (2, 4):
+            n_eval += 1
+            push(_oracle_qtt(tn, Y, N + 1, form=form_alias))
     # quantised variant on power-of-two shapes
     for _ in range(24 if deep else 6):
         d, q = rng.choice([(2, 1), (2, 2), (3, 1), (3, 2), (2, 3), (4, 1)])
@@ -1488,6 +1578,11 @@ def replay(data):
     print(data['what'])
     f = None
     fk = dict(form=FORMS.get(inp.get('form')), kform=KFORMS.get(inp.get('kform')), shared=bool(inp.get('shared')))
+    if inp.get('alias'):
+        T = [np.array(G, dtype=float) for G in inp.get('A', inp.get('Y'))]
+        f = _oracle_alias(tn, T, inp['k'], func=bool(inp.get('func')))
+        print('replayed:', f)
+        return 1 if f else 0
     if 'A' in inp and inp.get('cross'):
         f = _oracle_cross(tn, [np.array(G, dtype=float) for G in inp['A']], inp['k'])
     elif 'A' in inp:
